@@ -321,7 +321,7 @@ FUNCTIONS: Dict[str, Callable] = {
     'int': lambda v: Decimal(int(v)),
     'float': lambda v: Decimal(float(v)),
     'str': str,
-    'dict': dict,
+    'dict': lambda *args: dict(*args),
     'list': lambda *args: [*args],
 
     # strings
